@@ -20,6 +20,7 @@ Next ==
   \/ \E k \in FixIds : Step(<< "Fix", k, 0 >>, Fix(k))
   \/ \E v \in {0, 1} : Step(<< "Rename", v, 0 >>, Rename(v))
   \/ \E n \in {1, 2} : Step(<< "Bad", n, 0 >>, Bad)
+  \/ \E o \in Objs : Step(<< "Write", o, 0 >>, Write(o))
 Spec == Init /\ [][Next]_vars
 view == << live, of, holv, names, Len(hist) >>
 \* the sect of an object equals the last SetSect through one of ITS handles (2 if none): the history decides it,
